@@ -224,7 +224,9 @@ func (p *Prog) ModuleFuncs() []*ssa.Function {
 	prog := p.SSA()
 	var out []*ssa.Function
 	for f := range ssautil.AllFunctions(prog) {
-		if inModule(f) && f.Blocks != nil && f.Synthetic == "" {
+		// the body of a `for x := range seq` loop over an iterator function is a synthetic "yield" function that
+		// holds user code
+		if inModule(f) && f.Blocks != nil && (f.Synthetic == "" || f.Synthetic == "range-over-func yield") {
 			out = append(out, f)
 		}
 	}
